@@ -146,6 +146,12 @@ def run_route(case):
                 core.must_raise(lambda: getattr(make(clsname), name), (AttributeError,), what + " [get of an unknown underscore name]", sig=sig)
         elif is_dim:
             n = len(obj.axes[name].values)
+            # labels of another kind than the current ones are written as given (int -> float between the integers -> numeric-looking strings -> int)
+            for other in ([10 + k for k in range(n)], [0.5 + k for k in range(n)], [str(3 * k + 2) for k in range(n)]):
+                lib(lambda: setattr(obj, name, list(other)), what=what + " [set labels %r through the dimension name]" % (other,), sig=sig)
+                check(obj.axes[name].values.tolist() == other and all(type(x) is type(y) or isinstance(x, (int, float)) and isinstance(y, (int, float)) and x == y
+                                                                    for x, y in zip(obj.axes[name].values.tolist(), other)),
+                      "dimension-name-set-did-not-write-labels", {"what": what, "got": core.jsonable(obj.axes[name].values), "expected": other}, sig)
             newlab = [100 + k for k in range(n)]
             lib(lambda: setattr(obj, name, newlab), what=what + " [set labels through the dimension name]", sig=sig)
             check(obj.axes[name].values.tolist() == newlab, "dimension-name-set-did-not-write-labels", {"what": what, "got": core.jsonable(obj.axes[name].values)}, sig)
